@@ -5,6 +5,7 @@ public identifier form, UTF-8), exact string-table length, every reference at an
 strict decoding by the Lean specification reader (Spec/Wbxml.lean: tokens under their own code
 page, balanced ENDs, nothing left over) and the decoded events equal to the source document
 under the documented normalisations."""
+import re
 import os, random
 import common, corr, xmlgen, xcorr, docmp, xmlcmp, wbwalk
 from wbwalk import rd_mb
@@ -14,7 +15,7 @@ def hexout(r):
     return bytes.fromhex(r[6:].split()[0]) if r and r.startswith('R 0 ; ') and len(r) > 6 else None
 
 
-def header_checks(w, lang, version, anonymous, fields, strtbl):
+def header_checks(w, lang, version, anonymous, fields, strtbl, src=b''):
     errs = []
     if w[0] != version:
         errs.append(f'version byte {w[0]} instead of {version}')
@@ -41,7 +42,8 @@ def header_checks(w, lang, version, anonymous, fields, strtbl):
         cs, n = rd_mb(w, i)
         if cs != 106:
             errs.append(f'charset {cs} instead of UTF-8 (106)')
-    if anonymous and xmlid and xmlid in tbl:
+    # (the identifier text may legitimately be in the table when the document itself carries it as content)
+    if anonymous and xmlid and xmlid in tbl and xmlid not in re.sub(rb'<!DOCTYPE[^>]*>', b'', src):
         errs.append('anonymous document still contains the public-identifier string')
     if tlen and tbl[-1] != 0:
         errs.append('declared string-table length does not end at a terminator')
@@ -107,13 +109,14 @@ def run(res, args):
         fields, end, strtbl = wk
         if end != len(w[i]):
             viol.append((i, f'{len(w[i]) - end} bytes follow the end of the root element', '')); continue
-        errs = header_checks(w[i], lang, opts[i][0], opts[i][3] == 1, fields, strtbl)
+        errs = header_checks(w[i], lang, opts[i][0], opts[i][3] == 1, fields, strtbl, xs[i])
         stats['header_checked'] += 1
         if errs:
             viol.append((i, 'header / string table: ' + '; '.join(errs), '')); continue
         ok1, _, sdoc = docmp.doc_of_expat(sr)
         norm = docmp.Norm(d, lang)
-        exc = docmp.excuses(norm, sdoc)
+        exc_sc = docmp.excuses_scoped(norm, sdoc)
+        exc = set(exc_sc)
         if (not sp or not sp.startswith('S 1 1 ;')) and exc:
             k = next((k for k in known for t in exc if k['match'].get('contains') and k['match']['contains'] in t), None)
             if k:
@@ -137,10 +140,12 @@ def run(res, args):
                     dst.append(('C', e[1]))
             elif e[0] == 'E':
                 dst.append(e)
-        diff = docmp.compare(norm, sdoc, dst, opts[i][1] == 1)
+        diff_at = docmp.compare_at(norm, sdoc, dst, opts[i][1] == 1)
+        diff = diff_at[0] if diff_at else None
         stats['meaning_compared'] += 1
         if diff:
-            tags = list(exc) + [diff]
+            # an excuse counts only in the element the difference lies in
+            tags = sorted(docmp.applicable(exc_sc, diff_at[1])) + [diff]
             k = next((k for k in known for t in tags if k['match'].get('contains') and k['match']['contains'] in t), None)
             if k:
                 seen_known.add((k['property'], k['id'], k['what']))
